@@ -10,7 +10,7 @@ import os, sys, json, random, subprocess, re, shutil, glob
 from fractions import Fraction
 from common import *
 
-N_THEOREMS = 25
+N_THEOREMS = 39
 
 # ------------------------------------------------------------------------------------------- cases
 # A case is a dict; numbers are ints k meaning k/8, or 'I' / '-I'.
@@ -892,7 +892,17 @@ def run_harness(exe, cases, tag):
 
 def run(ck):
     ck.level = 'proof'
-    proof_ok, failing = ck.proof_stage('MpVerif.C08.Props', 'MpVerif/C08/Props.lean', 'C08_', ['MpVerif/C08/*.lean'], expect_min=N_THEOREMS)
+    # (1) regenerate the definitions extracted from the current source (written only when changed)
+    gen = os.path.join(LEAN, 'MpVerif', 'Gen', 'C08Easy.lean')
+    rc, out, err = sh([sys.executable, os.path.join(VERIF, 'translators', 'gen_easy_c08.py'), REPO, gen, os.path.join(BUILD, 'tr')], timeout=900)
+    ck.log((out.strip() or err.strip())[-300:])
+    translator_ok = rc == 0
+    if translator_ok:
+        proof_ok, failing = ck.proof_stage('MpVerif.C08.Props', 'MpVerif/C08/Props.lean', 'C08_', ['MpVerif/C08/*.lean', 'MpVerif/Gen/C08Easy.lean'], expect_min=N_THEOREMS)
+    else:
+        proof_ok, failing = False, ['translator: ' + (out + err).strip()[-400:]]
+        ck.cov.update({'obligations': N_THEOREMS, 'discharged': 0, 'checker_cmd': 'translators/gen_easy_c08.py failed (construct it cannot translate)'})
+    ck.cov['generated_from_source'] = 'lean/MpVerif/Gen/C08Easy.lean: 12 semantic definitions (PermuteVars loop body, ComputeObjValue terms, FeedObjExpression coefficient, NItemsMax, OnSuffix / OnPrimalSolution / FeedSuffixes index arithmetic) + 31 function skeletons, regenerated on every run by translators/gen_easy_c08.py'
     ck.log('proof stage: ok=%s failing=%s' % (proof_ok, failing[:10]))
     if ck.tier == 'thorough' and proof_ok:
         badm = ck.leanchecker(['MpVerif.C08.Props'])
